@@ -11,14 +11,14 @@ type C03Shape struct {
 	ID    int
 	Size  uintptr // unsafe.Sizeof(T{})
 	Align uintptr
-	Wit   []Wit                               // compiler's view of the listing entries, in TLC's listing order
-	List  func() []Entry                      // hseq.New[T]()
-	Name  func(string) Entry                  // hseq.ForName(hseq.New[T](), k)
-	Maybe func(string) (Entry, bool)          // hseq.ForNameMaybe
-	Type  map[string]func() Entry             // model type -> hseq.ForType[A, T]
-	Sel   func(...string) []Entry             // hseq.New[T](names...)
-	SelT  map[string]func() []Entry           // "A|B|C" -> hseq.New3[T, A, B, C]()
-	FMap  func() []Probe                      // hseq.FMap(hseq.New[T](), probe)
+	Wit   []Wit                                // compiler's view of the listing entries, in TLC's listing order
+	List  func() []Entry                       // hseq.New[T]()
+	Name  func(string) Entry                   // hseq.ForName(hseq.New[T](), k)
+	Maybe func(string) (Entry, bool)           // hseq.ForNameMaybe
+	Type  map[string]func() Entry              // model type -> hseq.ForType[A, T]
+	Sel   func(...string) []Entry              // hseq.New[T](names...)
+	SelT  map[string]func() []Entry            // "A|B|C" -> hseq.New3[T, A, B, C]()
+	FMap  func() []Probe                       // hseq.FMap(hseq.New[T](), probe)
 	FMapN map[int]func(names []string) []Probe // N -> hseq.FMapN(hseq.New[T](names...), probe 0, ..., probe N-1)
 }
 
